@@ -156,10 +156,16 @@ def peerCertsCheck (P : Prims) : Nat → List Nat → Option Reason
       else if !kuOK i c then some .keyUsage
       else peerCertsCheck P (i + 1) ds
 
-/-- `certs[i].Verify(opts)` for i = 0, 1; the Intermediates pool is still empty when they run -/
+/-- the Intermediates pool of `doFullHandshake`: every certificate of the server's message after the first two
+    (GM/T 0024: signing certificate, encryption certificate, CA chain), pooled BEFORE the two end-entity
+    certificates are verified (repaired: the pool used to be filled only after them, i.e. it was empty) -/
+def serverInters (P : Prims) (ders : List Nat) : List X509.Cert :=
+  (ders.drop 2).filterMap fun r => (P.parse r).map (·.x)
+
+/-- `certs[i].Verify(opts)` for i = 0, 1: roots = Config.RootCAs, intermediates = the rest of the message -/
 def serverChainOK (P : Prims) (c : Client) (ders : List Nat) (i : Nat) : Bool :=
   match certAt P ders i with
-  | some p => chainOK c.roots [] p.x c.opts
+  | some p => chainOK c.roots (serverInters P ders) p.x c.opts
   | none => false
 
 /-- `processServerKeyExchange`: the signature verifies under the key of certificate 0 over this session's
@@ -239,8 +245,22 @@ def Policy.requests : Policy → Bool | .noClientCert => false | _ => true
 def Policy.requires : Policy → Bool | .requireAnyClientCert | .requireAndVerifyClientCert => true | _ => false
 def Policy.verifies : Policy → Bool | .verifyClientCertIfGiven | .requireAndVerifyClientCert => true | _ => false
 
+/-- the de-duplicating loop of `gmCertificateList`: append to `acc` every entry of the list that `acc` does not hold yet -/
+def dedupInto (acc : List Nat) : List Nat → List Nat
+  | [] => acc
+  | d :: ds => if acc.contains d then dedupInto acc ds else dedupInto (acc ++ [d]) ds
+
+/-- `gmCertificateList` (gm_handshake_server_double.go): the Certificate message of a GMSSL server for its
+    configured key pairs `chains` (`Config.Certificates[i].Certificate`, or the two chains the callbacks returned):
+    the first certificate of chain 0 (signing), the first certificate of chain 1 (encryption), then the remaining
+    certificates of both chains and all further entries, each once (repaired: the chains used to be concatenated, which
+    put the CA certificate of the signing chain where the peer expects the encryption certificate) -/
+def certList (chains : List (List Nat)) : List Nat :=
+  (chains.take 2).filterMap List.head? ++
+    dedupInto [] (((chains.take 2).map List.tail ++ chains.drop 2).flatten)
+
 structure Server where
-  certs : List Nat               -- the Certificate message: Certificates[0].Certificate ++ Certificates[1].Certificate
+  certs : List Nat               -- the Certificate message: `certList` of the configured chains
   encDer : Nat                   -- Certificates[1].Certificate[0], which its key-exchange signature covers
   signKey : Key                  -- Certificates[0].PrivateKey
   decKey : Key                   -- Certificates[1].PrivateKey
